@@ -78,6 +78,7 @@ def train_parts_case(ntypes, override_mass, override_len, loco_mass, cd_vec=Fals
         return ret(c)["train_res.Strap"]
 
     res_claims = [
+        Claim("static mass behind the train weight = cars (or the configured override) + locomotives", lambda c: EQ(ret(c)["state.mass_static"], towed(c) + (c.S["lm"] if loco_mass else 0)), when="ok", role="agg_mass_static"),
         Claim("bearing resistance = sum n * axles * bearing_res_per_axle", lambda c: EQ(strap(c)["bearing.force"], sum(c.S[f"rv{i}_bearing"] * c.S[f"rv{i}_axles"] * c.S[f"n{i}"] for i in R)), when="ok", role="agg_bearing"),
         Claim("rolling ratio = car-mass-weighted mean over the towed mass",
               lambda c: EQ(strap(c)["rolling.ratio"] * towed(c), sum(c.S[f"rv{i}_rolling"] * (c.S[f"rv{i}_base"] + c.S[f"rv{i}_freight"]) * c.S[f"n{i}"] for i in R)), when="ok", role="agg_rolling"),
